@@ -156,6 +156,12 @@ void ops_lifecycle_case(const char* key, unsigned kindmask, int cfg, int steps, 
 void ops_ring_history_case(int which, uint64_t N, int64_t pA, uint64_t N2, int64_t pB, int native, unsigned rep, const char* counter);
 // the named entries, reps argument sets each, with MON_RECONTENT
 void ops_recontent_case(const char* key, const char* const* names, int n, uint64_t N, int cfg, int reps, unsigned rep, const char* counter);
+// T threads run the lifecycle fuzz at once on private pools (constructors / destructors overlapping unrelated calls)
+void ops_concurrent_lifecycle_case(const char* key, unsigned kindmask, int cfg, int T, int steps, unsigned rep, const char* counter);
+// the named entries (reps argument sets each) at dimension N from a thread whose stack has stack_kib KiB, compared with the main thread's results
+void ops_small_stack_case(const char* key, const char* const* names, int n, uint64_t N, int cfg, unsigned stack_kib, int reps, unsigned rep, const char* counter);
+// build tag "oom" only (no-op elsewhere): the named entries repeated in a forked child with every allocation request inside the call refused
+void ops_oom_case(const char* key, const char* const* names, int n, uint64_t N, int cfg, int reps, unsigned rep, const char* counter);
 // counts of memcheck definedness failures observed by MON_VALGRIND (process-wide)
 extern uint64_t ops_valgrind_undefined_outputs;
 
